@@ -56,7 +56,9 @@ RULE = ("case = (public entry point, sizes, variant, dtype, memory layout, "
         "f8/f4/i8/b1, layout in contiguous / a[..., ::2] / a.T / a[::-1], "
         "value class in random/constant/tied/NaN/huge, seeds; long: every "
         "entry point with a time axis at 130 / 700-1100 (quadratic cost) or "
-        "130 / 1030 / 3000 (thorough: up to 6000) samples, other sizes 1-3. "
+        "130 / 1030 / 3000 (thorough: up to 6000) samples, other sizes 1-3, "
+        "and the entry points without a time axis at 40..300 nodes (densest "
+        "graphs). "
         "Non-trivial = "
         "the call reached a compiled kernel AND (some size <= 1 OR more "
         "nodes than samples); distinct = hash of the whole case."
@@ -593,9 +595,36 @@ def long_cases(tier, seed):
                        "s1": (off + T) % 100000, "s2": (off + p) % 100000}
 
 
+# entry points without a time axis: node counts well beyond the grid (stack
+# scratch space that grows with links x nodes, per-node tables)
+_BIG_NODES = {"res_current_flow_betweenness": (60, 110),
+              "net_local_cliquishness": (60,),
+              "net_nsi_betweenness": (60,),
+              "net_newman_betweenness": (40,),
+              "inter_cross_clustering": (40,),
+              "geo_rewire_geomodel": (40,),
+              "grid_distances": (300,)}
+
+
+def big_cases(tier, seed):
+    off = _off(seed)
+    for name, sizes in sorted(_BIG_NODES.items()):
+        e = aw.ENTRIES[name]
+        for nn in sizes:
+            for p in range(e["variants"]):
+                d = [nn if dn in ("N", "N1", "N2") else min(hi, 3)
+                     for dn, hi in e["dims"]]
+                # vs = 3: the densest graphs of the entry points that draw one
+                yield {"entry": name, "d": d, "p": p, "dtype": "f8",
+                       "layout": "c", "vc": "random", "vs": 3,
+                       "s1": (off + nn) % 100000, "s2": (off + p) % 100000}
+
+
 def run_long(ctx):
     _begin(ctx)
-    pbt.run_enum(ctx, long_cases(ctx.tier, ctx.seed), oracle, cap=ctx.n)
+    pbt.run_enum(ctx, itertools.chain(long_cases(ctx.tier, ctx.seed),
+                                      big_cases(ctx.tier, ctx.seed)),
+                 oracle, cap=ctx.n)
     _confirm_fresh(ctx)
     _finish(ctx)
 
